@@ -79,6 +79,14 @@ def builder_cases(draw, max_leaves=10, max_width=4):
 
 
 @st.composite
+def pyobj_cases(draw, max_leaves=8):
+    """Custom Python objects (every mapping becomes an object with attributes) through pydiff.build_tree."""
+    a, b = draw(doc_pairs(max_leaves, 3))
+    ds, le = draw(options)
+    return {'family': 'pyobj', 'a': a, 'b': b, 'ds': ds, 'le': le}
+
+
+@st.composite
 def json_cases(draw, max_leaves=10, max_width=4, leaf=scalars):
     a, b = draw(doc_pairs(max_leaves, max_width, leaf))
     ds, le = draw(options)
@@ -150,6 +158,36 @@ def padded_cases(draw):
     tail_b = draw(st.one_of(st.just(tail_a), st.lists(st.sampled_from(['x', 'y', 1, 2]), max_size=2)))
     ds, le = draw(options)
     return {'family': 'json', 'a': a + tail_a, 'b': b + tail_b, 'ds': ds, 'le': le}
+
+
+# -- mappings that grow or shrink by several unmatched keys, one of them carrying a much larger value ---------------------
+# (surplus-element estimates and clamps in MultiSetEdit.bounds only matter here)
+
+@st.composite
+def growing_dict_cases(draw):
+    small = st.one_of(st.integers(0, 9), st.sampled_from(['a', 'b', 'ab', 'x']), st.booleans())
+    bigv = st.one_of(st.lists(st.integers(0, 9), min_size=6, max_size=9), st.text(alphabet='abcxyz', min_size=12, max_size=30))
+    keypool = st.sampled_from(['ba', 'e', 'fbc', 'a', 'ffa', 'kk', 'name', 'zz9', 'q', 'key2'])
+    base = draw(st.dictionaries(keypool, small, min_size=1, max_size=3))
+    other = {}
+    for k, v in base.items():
+        how = draw(st.integers(0, 3))
+        if how == 0:
+            other[k] = v
+        elif how == 1:
+            other[draw(keypool)] = v
+        elif how == 2:
+            other[k] = draw(small)
+    extra = draw(st.dictionaries(keypool, st.one_of(small, bigv), min_size=1, max_size=3))
+    if not any(isinstance(v, (list, str)) and len(v) >= 6 for v in extra.values()):
+        extra[draw(keypool)] = draw(bigv)
+    for k, v in extra.items():
+        other.setdefault(k, v)
+    a, b = (base, other) if draw(st.booleans()) else (other, base)
+    if draw(st.integers(0, 2)) == 0:
+        a, b = [a, draw(small)], [b, draw(small)]
+    ds, le = draw(options)
+    return {'family': 'json', 'a': a, 'b': b, 'ds': ds, 'le': le}
 
 
 # -- nested lists (the shape C05's quiet-printer crash needs: lists nested >= 3 deep) -------------------------------
@@ -254,6 +292,25 @@ def plist_cases(draw, max_leaves=8):
 
 # -- builders ----------------------------------------------------------------------------------------------------------
 
+class Thing:
+    """custom object for the pydiff entry point: every mapping of a case document becomes one of these"""
+
+
+class Other:
+    pass
+
+
+def to_pyobj(doc):
+    if isinstance(doc, dict):
+        o = Other() if 'k2' in doc else Thing()
+        for k, v in doc.items():
+            setattr(o, k if k.isidentifier() else 'attr_' + ''.join(c if c.isalnum() else '_' for c in k), to_pyobj(v))
+        return o
+    if isinstance(doc, list):
+        return [to_pyobj(x) for x in doc]
+    return doc
+
+
 def build_multiset(doc, opts):
     if isinstance(doc, list):
         return graphtage.MultiSetNode([build_multiset(x, opts) for x in doc], auto_match_keys=opts.auto_match_keys)
@@ -296,6 +353,9 @@ def build(case, which, opts=None):
     if fam == 'pydiff':
         from graphtage import pydiff
         return pydiff.build_tree(doc, opts)
+    if fam == 'pyobj':
+        from graphtage import pydiff
+        return pydiff.build_tree(to_pyobj(doc), opts)
     if fam == 'multiset':
         return build_multiset(doc, opts)
     if fam == 'xml':
